@@ -144,16 +144,16 @@ Definition is_comparable (t : ty) : bool :=
 
 (* can the constraint type itself be used as the type argument of the self-check? *)
 Definition instantiable (tp : tparam) : bool :=
-  negb (is_comparable (tp_constraint tp))
-  && negb (has_tparam (tp_constraint tp))
-  && negb (existsb is_comparable (tp_under_embeds tp))
-  && match tp_under_embeds tp with
-     | [] => true
-     | [_] => match explicit_constraint (tp_under_embeds tp) with
-              | Some (TBasic _ _ false) => true
-              | _ => false
-              end
-     | _ => false
+  negb (has_tparam (tp_constraint tp))
+  && match explicit_constraint (tp_under_embeds tp) with
+     | Some (TBasic _ _ false) => match tp_under_embeds tp with [_] => true | _ => false end
+     | Some _ => false
+     | None =>
+       if tp_plain_comparable tp
+       then forallb is_comparable (tp_under_embeds tp)   (* int is used (repair D9a): fine when the
+                                                            constraint is comparable and nothing else *)
+       else negb (is_comparable (tp_constraint tp))
+            && match tp_under_embeds tp with [] => true | _ => false end
      end.
 
 Definition is_exported_name (s : string) : bool :=
@@ -191,7 +191,7 @@ Definition input_failing (i : input) (c : config) (args : list string) : list st
   ((if forallb walk_complete tys then [] else ["walk_incomplete"])
    ++ (if c_skip_ensure c || forallb instantiable tps then [] else ["self_check_not_instantiable"])
    ++ (if c_skip_ensure c ||
-          forallb (fun tp => match explicit_constraint (tp_under_embeds tp) with
+          forallb (fun tp => match explicit_constraint_tp tp with
                              | Some t => match mentions t with [] => true | _ => false end
                              | None => true
                              end) tps
